@@ -213,6 +213,7 @@ OpStep(s, st, n) ==
 IntOnly == {"Map", "MapErr", "Scan", "Filter", "Distinct", "DistinctBy", "SkipWhile", "TakeWhile", "First", "Last", "Find",
             "Sum", "Min", "Max", "Clamp", "Reduce", "All", "Contains", "StartWith", "EndWith", "DefaultIfEmpty",
             "Ceil", "Floor", "Round", "Trunc", "Abs", "Average", "CeilP1", "FloorP1", "CeilBig", "FloorBig",
+            "Cast",                \* the harness instantiates Cast[any, int]: only integers are fed to it (a value of another dynamic type is an Error by definition)
             "ElementAtOrDefault", "OnErrorReturn", "ToMap", "Pairwise"}
 TIn(s) == CASE s.op \in IntOnly -> "int" [] s.op = "Flatten" -> "seq" [] s.op = "Dematerialize" -> "notif" [] OTHER -> "any"
 TOut(s, t) ==
